@@ -11,6 +11,7 @@ answers are the `Spec.*` walks over `Spec.parentOf ps`.
 import BV.C17.LemmasRange
 import BV.C17.LemmasHF
 import BV.C17.LemmasBits
+import BV.C17.LemmasClosed
 import BV.Generated.C17
 namespace BV.C17
 open Spec Lemmas
@@ -438,6 +439,18 @@ theorem orphan_pool_bound (b : HF.BState) (n : Nat) :
           exact ⟨by omega, by simp⟩
     · simp only [hf, if_false, List.length_append, List.length_cons, List.length_nil]
       exact ⟨by omega, fun _ => by omega⟩
+
+/-- after every interleaving of header and block deliveries the index is closed under `parent`:
+    every stored block sits on a stored parent (so every stored block has its whole ancestry stored)
+    and every header-only entry sits on an indexed parent -/
+theorem index_closed_under_parent (e : HF.Env) (h0 : e.parent 0 = 0) (ops : List HF.Op) :
+    let s := HF.run e {} ops
+    (∀ n ∈ s.b.data, e.parent n ∈ s.b.data) ∧
+    (∀ n ∈ s.h.hdrIdx, HF.inIndex s.b s.h (e.parent n) = true) :=
+  HF.run_indexClosed e ops {} (HF.indexClosed_init e h0)
+
+example : ({ P := parentOf [0, 1], W := fun n => n, bad := fun _ => false } : HF.Env).parent 0 = 0 := by
+  decide
 
 /-- a failed re-organisation (a block of the branch fails validation, or the branch holds a
     known-invalid block) never moves the best tip -/
